@@ -165,6 +165,11 @@ def build_reprs():
     add("a2_f", lambda: np.array([[1., 2.], [3., 4.], [5., 6.5]]))
     add("a2_i", lambda: np.array([[1, 2], [3, 4]]))
     add("a2_row", lambda: np.array([[1.25, 2.0]]))
+    # traced outlines: more elements than any print / line / block threshold
+    add("a2_f_501", lambda: np.column_stack([np.cos(np.linspace(0, 6.28, 501)) * 100 + 150,
+                                            np.sin(np.linspace(0, 6.28, 501)) * 0.1 + 0.2]))
+    add("a2_f_3000", lambda: np.column_stack([np.linspace(20, 300, 3000),
+                                             np.linspace(0.0, 0.3, 3000) ** 2]))
     add("l_i3", lambda: [1, 2, 3])
     add("l_z", lambda: [0, 1])
     add("l_f2", lambda: [1.5, 2.5])
